@@ -546,3 +546,139 @@ Proof.
         - rewrite <- EF. destruct cs; exact I'. }
       rewrite M. destruct (doomed st i); lia.
 Qed.
+
+(* ---------------------------------------------------------------- converter job completion *)
+Definition cconv_pre (st : state) (sets : list (N * N)) : state :=
+  let st0 := invalidate_converters (set_jconv st None) (m_cupd st) in
+  let s := fold_left (fun a cs => union a (snd cs)) sets 0 in
+  set_masks (set_tags st0 (inherit (all st0) (data_tags_uncertain s (tags st0)))) (union (m_upd st0) s) (m_rst st0) (m_add st0).
+
+Lemma cconv_eq st p sets v nx : jconv st = Some (mkCj sets v nx true) ->
+  step repaired p (AComplete JConvert) st = start_merge (start_converter (start_tagging p (cconv_pre st sets))).
+Proof. intros J. simpl. rewrite J. reflexivity. Qed.
+
+Lemma data_tags_zero ts : data_tags_uncertain 0 ts = ts.
+Proof.
+  unfold data_tags_uncertain. induction ts as [|[k t] r IH]; simpl; [reflexivity|]. rewrite IH. f_equal. f_equal.
+  destruct (d_data (t_def t)); [|reflexivity]. unfold union. rewrite N.lor_0_r. apply tag_eta.
+Qed.
+
+Lemma pot_cconv st sets c i : jconv st <> None -> In c (convs st) ->
+  pot (cconv_pre st sets) c i = (if mem i (m_cupd st) then 1%nat else pot st c i).
+Proof.
+  intros J Ic. unfold pot, doomed, cconv_pre. simpl.
+  assert (memN c (convs st) = true) as -> by (unfold memN; apply existsb_exists; exists c; split; [exact Ic|apply N.eqb_refl]).
+  destruct (jconv st); [|congruence]. simpl. destruct (mem i (m_cupd st)); [reflexivity|]. destruct (cache st c i); reflexivity.
+Qed.
+
+Lemma elems_aux_mem fuel : forall k s i, In i (elems_aux fuel k s) -> mem i s = true.
+Proof.
+  induction fuel as [|f IH]; simpl; intros k s i H; [destruct H|].
+  destruct (mem k s) eqn:E; [destruct H as [<-|H]; [exact E|]|]; eapply IH; exact H.
+Qed.
+Lemma elems_mem s i : In i (elems s) -> mem i s = true.
+Proof. unfold elems. apply elems_aux_mem. Qed.
+
+Lemma fold_hit_zero (cch : N -> option N) l : (forall i, In i l -> cch i = None) ->
+  fold_left (fun a i => match cch i with Some _ => add1 i a | None => a end) l 0 = 0.
+Proof.
+  induction l as [|x l IH]; simpl; intros H; [reflexivity|]. rewrite (H x (or_introl eq_refl)). apply IH. intros; apply H; right; assumption.
+Qed.
+
+Lemma e3_eq st st' : convs st' = convs st -> next st' = next st ->
+  (forall c i, In c (convs st) -> In i (ids st) -> pot st' c i = pot st c i) -> c_e3 st' = c_e3 st.
+Proof.
+  intros C N H. unfold c_e3, ids. rewrite C, N. f_equal. apply map_ext_in. intros c Ic. f_equal. apply map_ext_in. intros i Ii.
+  apply H; assumption.
+Qed.
+
+Lemma In_ids_lt st i : In i (ids st) -> i < next st.
+Proof.
+  unfold ids. intros H. apply in_map_iff in H. destruct H as (k & <- & I). apply in_seq in I. lia.
+Qed.
+
+Lemma after_starts_mu p Y :
+  let X := start_merge (start_converter (start_tagging p Y)) in
+  c_imp X = c_imp Y /\ c_e3 X = c_e3 Y /\ c_p X = c_p (start_tagging p Y) /\
+  c_z X = c_z (start_tagging p Y) /\ c_d X = c_d (start_tagging p Y) /\ c_t X = c_t Y /\ c_tp X = c_tp (start_tagging p Y) /\
+  c_cv X = c_cv (start_converter (start_tagging p Y)).
+Proof.
+  intros X. unfold X.
+  destruct (start_merge_mu (start_converter (start_tagging p Y))) as (A1 & A2 & A3 & A4 & A5 & A6 & A7 & A8 & _).
+  destruct (start_converter_mu (start_tagging p Y)) as (B1 & B2 & B3 & B4 & B5 & B6 & B7 & _).
+  destruct (start_tagging_mu_same p Y) as (C1 & C2 & C3 & C4 & _).
+  repeat split; congruence.
+Qed.
+
+Lemma dec_cconv st p sets v nx : Tinv st -> jconv st = Some (mkCj sets v nx true) ->
+  lexlt (mu (step repaired p (AComplete JConvert) st)) (mu st).
+Proof.
+  intros (So & Ra & Dk & TB & _ & _ & _ & CL & _ & (TWC & _) & (CA & _) & _) J.
+  rewrite (cconv_eq st p sets v nx J). set (pre := cconv_pre st sets).
+  destruct (after_starts_mu p pre) as (E1 & E2 & E3 & E4 & E5 & E6 & E7 & E8). cbv zeta in *.
+  set (X := start_merge (start_converter (start_tagging p pre))) in *.
+  assert (jconv st <> None) as JN by (rewrite J; discriminate).
+  assert (forall c i, In c (convs st) -> pot pre c i = (if mem i (m_cupd st) then 1%nat else pot st c i)) as PC.
+  { intros c i Ic. unfold pre. apply pot_cconv; assumption. }
+  assert (forall c i, In c (convs st) -> In i (ids st) -> (pot pre c i <= pot st c i)%nat) as PL.
+  { intros c i Ic Ii. rewrite (PC c i Ic). destruct (mem i (m_cupd st)) eqn:M; [|lia].
+    unfold pot, doomed. rewrite J, M. destruct (cache st c i); lia. }
+  unfold mu. rewrite E1. replace (c_imp pre) with (c_imp st) by reflexivity. apply lex_tl. rewrite E2.
+  (* the branch in which no existing stream of a converter is in the changed-during-job mask *)
+  assert ((forall c i, In c (convs st) -> In i (ids st) -> mem i (m_cupd st) = false) ->
+          lexlt [c_e3 pre; c_p X; c_z X; c_d X; c_t X; c_tp X; c_cv X; c_mg X]
+                [c_e3 st; c_p st; c_z st; c_d st; c_t st; c_tp st; c_cv st; c_mg st]) as HB.
+  { intros NM.
+    assert (c_e3 pre = c_e3 st) as ->.
+    { apply e3_eq; try reflexivity. intros c i Ic Ii. rewrite (PC c i Ic), (NM c i Ic Ii). reflexivity. }
+    apply lex_tl.
+    assert (c_p X = 0%nat) as P0.
+    { rewrite E3. destruct (start_tagging_mu_same p pre) as (_ & _ & Q & _). rewrite Q. reflexivity. }
+    rewrite P0.
+    destruct (is0 (fold_left (fun a cs => union a (snd cs)) sets 0)) eqn:SZ.
+    2:{ apply lex_hd; [|reflexivity]. unfold c_p. rewrite J. simpl. unfold sunion. rewrite SZ. simpl. lia. }
+    assert (c_p st = 0%nat) as -> by (unfold c_p; rewrite J; simpl; unfold sunion; rewrite SZ; reflexivity).
+    apply lex_tl. apply is0_true in SZ.
+    (* tags and masks are unchanged *)
+    assert (tags pre = tags st) as TG.
+    { unfold pre, cconv_pre. simpl. rewrite SZ, data_tags_zero. apply inherit_closed_id; assumption. }
+    assert (m_upd pre = m_upd st /\ m_rst pre = m_rst st /\ m_add pre = m_add st) as (MU & MR & MA).
+    { unfold pre, cconv_pre. simpl. rewrite SZ. unfold union. rewrite N.lor_0_r. auto. }
+    assert (start_tagging p pre = pre) as STG.
+    { destruct (jtag st) eqn:JT.
+      - unfold start_tagging. replace (jtag pre) with (jtag st) by reflexivity. rewrite JT. reflexivity.
+      - destruct (start_tagging_cases p pre) as [(_ & Eq)|(n & t & Tn & EL & _)]; [exact JT|exact Eq|].
+        exfalso. rewrite TG in EL. apply (TWC (eligible_first _ _ EL)). exact JT. }
+    rewrite E4, E5, E6, E7, E8, STG.
+    rewrite (c_z_frame st pre) by (try reflexivity; exact TG).
+    rewrite (c_d_frame st pre) by assumption.
+    assert (c_t pre = c_t st) as -> by (unfold c_t; rewrite TG; reflexivity).
+    replace (c_tp pre) with (c_tp st) by reflexivity.
+    do 4 apply lex_tl. apply lex_hd; [|reflexivity].
+    (* nothing new is queued by the invalidation *)
+    assert (forall c, In c (convs st) -> toconv pre c = toconv st c) as TC.
+    { intros c Ic. unfold pre, cconv_pre. simpl.
+      assert (memN c (convs st) = true) as -> by (unfold memN; apply existsb_exists; exists c; split; [exact Ic|apply N.eqb_refl]).
+      rewrite fold_hit_zero; [unfold union; apply N.lor_0_r|].
+      intros i Ii. apply elems_mem in Ii. destruct (cache st c i) eqn:CC; [|reflexivity].
+      destruct (CA c i n CC) as (Li & _). rewrite (NM c i Ic (In_ids st i Li)) in Ii. discriminate. }
+    assert (existsb (fun c => negb (is0 (toconv pre c))) (convs st) = existsb (fun c => negb (is0 (toconv st c))) (convs st)) as EXE.
+    { clear - TC. induction (convs st) as [|a l IH]; [reflexivity|]. cbn [existsb].
+      rewrite (TC a (or_introl eq_refl)), IH; [reflexivity|]. intros; apply TC; right; assumption. }
+    assert (c_cv pre + 1 = c_cv st)%nat as CVE.
+    { unfold c_cv. replace (jconv pre) with (@None convjob) by reflexivity. replace (convs pre) with (convs st) by reflexivity.
+      rewrite EXE, J. cbn [ph cj_done]. lia. }
+    destruct (start_converter_mu pre) as (_ & _ & _ & _ & _ & _ & _ & _ & _ & SC).
+    destruct (SC eq_refl) as (LE & _). lia. }
+  destruct (existsb (fun i => mem i (m_cupd st)) (ids st)) eqn:EI.
+  - destruct (convs st) as [|c0 cl] eqn:CV.
+    + apply HB. intros c i [].
+    + apply existsb_exists in EI. destruct EI as (i & Ii & Mi).
+      apply lex_hd; [|reflexivity].
+      apply (e3_lt st pre c0 i); try reflexivity.
+      * rewrite CV. exact PL.
+      * rewrite CV. left. reflexivity.
+      * apply In_ids_lt. exact Ii.
+      * rewrite (PC c0 i (or_introl eq_refl)), Mi. unfold pot, doomed. rewrite J, Mi. destruct (cache st c0 i); lia.
+  - apply HB. intros c i _ Ii. exact (existsb_false_all _ _ EI i Ii).
+Qed.
